@@ -310,6 +310,37 @@ bool applyEdit(NifFile& nif, const json& st, Ctx& ctx, NifFile* other) {
 		ctx.probe("edit_rebuild_ref_array");
 		return true;
 	}
+	if (op == "SetEyeData") {
+		auto bs = dynamic_cast<BSTriShape*>(shape);
+		if (!bs) return false;
+		std::vector<float> e(bs->GetNumVertices());
+		for (auto& x : e) x = r.chance(0.5) ? 1.0f : 0.0f;
+		NifFile::SetEyeDataForShape(shape, e);
+		ctx.probe("edit_set_eye_data");
+		return true;
+	}
+	if (op == "SetExportInfo") {
+		// export info of a length around the one-byte chunk limit (the header stores it in pieces with a length byte each)
+		static const size_t lens[] = {0, 40, 253, 254, 255, 256, 300, 508, 509, 510, 600, 900};
+		size_t n = lens[salt % 12];
+		std::string s;
+		for (size_t i = 0; i < n; i++) s.push_back(char('a' + (i * 7 + salt) % 26));
+		nif.GetHeader().SetExportInfo(s);
+		ctx.probe("edit_set_export_info");
+		return true;
+	}
+	if (op == "DeleteUnreferencedTyped") {
+		// the typed public form of the clean-up (documented: does nothing while unknown block types are present)
+		switch (salt % 5) {
+			case 0: nif.DeleteUnreferencedBlocks<BSShaderTextureSet>(); break;
+			case 1: nif.DeleteUnreferencedBlocks<NiExtraData>(); break;
+			case 2: nif.DeleteUnreferencedBlocks<NiProperty>(); break;
+			case 3: nif.DeleteUnreferencedBlocks<NiTimeController>(); break;
+			default: nif.DeleteUnreferencedBlocks<NiSourceTexture>(); break;
+		}
+		ctx.probe("edit_delete_unreferenced_typed");
+		return true;
+	}
 	if (op == "PrettySort") { nif.PrettySortBlocks(); return true; }
 	if (op == "Optimize") { nif.Optimize(); return true; }
 	if (op == "TrimTexturePaths") { nif.TrimTexturePaths(); return true; }
@@ -335,7 +366,7 @@ const std::vector<std::string>& editOps() {
 	static std::vector<std::string> v = {"DeleteVerts", "AddNode", "DeleteNode", "DeleteShape", "RenameShape", "SetTexture", "OffsetShape", "MoveVertex",
 										 "SetNodeTransform", "SetNodeName", "AddExtraData", "AddLooseBlock", "CloneShape", "AddShape", "CalcNormals", "CalcTangents",
 										 "InvertUVs", "UpdateSkinPartitions", "DeleteSkinning", "DeleteShader", "AlphaProperty", "SetParentNode", "PrettySort",
-										 "Optimize", "TrimTexturePaths", "FixBSXFlags", "FixShaderFlags", "DeleteUnreferenced", "OptimizeFor", "ShapeSetTriangles", "ShapeSetBounds", "ShapeToggleColors", "ShapeUpdateBounds", "SetTexturePath", "ReplaceWithClone", "MoveBlocks", "UnlinkFromNode", "RebuildRefArray"};
+										 "Optimize", "TrimTexturePaths", "FixBSXFlags", "FixShaderFlags", "DeleteUnreferenced", "OptimizeFor", "ShapeSetTriangles", "ShapeSetBounds", "ShapeToggleColors", "ShapeUpdateBounds", "SetTexturePath", "ReplaceWithClone", "MoveBlocks", "UnlinkFromNode", "RebuildRefArray", "SetEyeData", "SetExportInfo", "DeleteUnreferencedTyped"};
 	return v;
 }
 
